@@ -202,8 +202,9 @@ class Enc:
     """encoding options; canonical=True gives the compact canonical encoding"""
 
     def __init__(self, rng, canonical=False, junk=True, indexed=True, list_kinds=('lo', 'la', 'reg'),
-                 opt_kinds=('ixo', 'bym', 'bim', 'unm'), widths=WIDTHS, weird_empty=0.0, special=True, strided=0.0):
+                 opt_kinds=('ixo', 'bym', 'bim', 'unm'), widths=WIDTHS, weird_empty=0.0, special=True, strided=0.0, ix_prob=0.12):
         self.rng = rng
+        self.ix_prob = ix_prob      # probability of an IndexedArray indirection at a node (0.3 over record nodes)
         self.canonical = canonical
         self.junk = junk and not canonical
         self.indexed = indexed and not canonical
@@ -241,7 +242,7 @@ def encode(enc, t, vals, under_option=False):
     rng = enc.rng
     k = t[0]
     # optional IndexedArray indirection (not directly under or over an option node)
-    if enc.indexed and not under_option and k != 'opt' and rng.random() < 0.12:
+    if enc.indexed and not under_option and k != 'opt' and rng.random() < (max(enc.ix_prob, 0.3) if k == 'rec' else enc.ix_prob):
         n = len(vals)
         pre = junkvals(enc, t)
         perm = list(range(n))
